@@ -461,6 +461,51 @@ def inlined_values(func, depth=8):
     return out
 
 
+def inlined_calls(func, prefix, depth=8):
+    """[(inside a loop of `func`?, text of the call with single-assignment locals inlined)] for every expression
+    statement of `func` that is a call whose text starts with `prefix`"""
+    import copy
+
+    vals = {}
+    counts = {}
+    params = {a.arg for a in func.args.args + func.args.kwonlyargs}
+    for n in ast.walk(func):
+        if isinstance(n, ast.Assign):
+            for t in n.targets:
+                for x in ast.walk(t):
+                    if isinstance(x, ast.Name) and isinstance(x.ctx, ast.Store):
+                        counts[x.id] = counts.get(x.id, 0) + 1
+            if len(n.targets) == 1 and isinstance(n.targets[0], ast.Name):
+                vals[n.targets[0].id] = n.value
+        if isinstance(n, (ast.AugAssign, ast.AnnAssign)) and isinstance(n.target, ast.Name):
+            counts[n.target.id] = counts.get(n.target.id, 0) + 2
+    single = {k for k, c in counts.items() if c == 1 and k in vals and k not in params}
+
+    def inline(node, d):
+        class T(ast.NodeTransformer):
+            def visit_Name(self, x):
+                if isinstance(x.ctx, ast.Load) and x.id in single and d > 0:
+                    return inline(copy.deepcopy(vals[x.id]), d - 1)
+                return x
+        return T().visit(node)
+
+    out = []
+
+    def walk(body, in_loop):
+        for st in body:
+            if isinstance(st, ast.Expr) and isinstance(st.value, ast.Call) and ast.unparse(st.value).startswith(prefix):
+                out.append((in_loop, ast.unparse(inline(copy.deepcopy(st.value), depth))))
+            for fld in ("body", "orelse", "finalbody"):
+                sub = getattr(st, fld, None)
+                if isinstance(sub, list):
+                    walk(sub, in_loop or isinstance(st, (ast.For, ast.While)))
+            for h in getattr(st, "handlers", []) or []:
+                walk(h.body, in_loop)
+
+    walk(func.body, False)
+    return out
+
+
 def maximal(texts):
     """drop every text that occurs inside another one (a named temporary and the expression it was inlined into)"""
     texts = sorted(set(texts))
@@ -491,6 +536,14 @@ def gen_adapt():
             if isinstance(n, ast.If) and ast.unparse(n.test) in ("step > window", "step > options.adaptive_window", "step > self.options.adaptive_window"):
                 window_test = "step > window"
     new_dt = "inlined into the clip expression"
+    # where the change of |psi|^2 is recorded for the windowed mean: once per solve step (in `update`, outside the
+    # screening loop), and what is recorded
+    rec = []
+    for fn in class_funcs(tree, "TDGLSolver"):
+        for in_loop, txt in inlined_calls(fn, "self.d_psi_sq_vals.append("):
+            where = "update" if fn.name == "update" else f"method {fn.name}"
+            rec.append(f"{where}, {'inside a loop' if in_loop else 'once per call'}: {txt}")
+    record = " ; ".join(sorted(rec))
     retry = None
     cond = None
     for n in ast.walk(step):
@@ -501,8 +554,9 @@ def gen_adapt():
             retry = val
     want = dict(new_dt="inlined into the clip expression",
                 tent="np.clip(0.5 * (self.options.dt_init / max(1e-10, np.mean(self.d_psi_sq_vals[-self.options.adaptive_window:])) + dt), 0, self.dt_max)",
-                window_test="step > window", retry="dt * self.options.adaptive_time_step_multiplier", cond="not options.adaptive or retries > options.max_solve_retries")
-    got = dict(new_dt=new_dt, tent=tent, window_test=window_test, retry=retry, cond=cond)
+                window_test="step > window", retry="dt * self.options.adaptive_time_step_multiplier", cond="not options.adaptive or retries > options.max_solve_retries",
+                record="update, once per call: self.d_psi_sq_vals.append(float(self.xp.absolute(abs_sq_psi - self.xp.absolute(psi) ** 2).max()))")
+    got = dict(new_dt=new_dt, tent=tent, window_test=window_test, retry=retry, cond=cond, record=record)
     # the structure is matched textually (after ast normalisation); the numeric constants are carried into Lean
     import re
 
@@ -512,10 +566,10 @@ def gen_adapt():
     lines = [HEADER.format(src="tdgl/solver/solver.py :: TDGLSolver.update / adaptive_euler_step (time-step lines)", sha=sha_of(src)),
              "namespace Tdgl.Gen\n",
              "/-- the source lines of the time-step logic, as normalised by Python's `ast.unparse` -/"]
-    for k in ("new_dt", "tent", "window_test", "retry", "cond"):
+    for k in ("new_dt", "tent", "window_test", "retry", "cond", "record"):
         lines.append(f"def src_{k} : String := {lean_str(got[k])}")
     lines.append("\n/-- what the hand-written model `Tdgl.Adaptive` was written against -/")
-    for k in ("new_dt", "tent", "window_test", "retry", "cond"):
+    for k in ("new_dt", "tent", "window_test", "retry", "cond", "record"):
         lines.append(f"def model_{k} : String := {lean_str(want[k])}")
     lines.append("\nend Tdgl.Gen\n")
     return "\n".join(lines)
